@@ -274,22 +274,73 @@ def engine_api(prog):
     return out
 
 
-def is_purge_block(b, bb, cache={}):
-    """is block bb control-dependent on `is_expired() == true` (the lazy purge branch)?"""
-    key = (b.fn,)
-    reg = cache.get(key)
-    if reg is None:
-        reg = set()
-        for i, t in b.calls():
-            if callee(t).endswith("::is_expired") and t["t"] >= 0:
-                sw = _follow_to_switch(b, t["t"], t["d"]["l"])
-                if sw is None:
+def expired_region(b):
+    """blocks that execute only when an is_expired() call returned true -- directly (switch on the
+    call's result) or through a bool local that can only hold that result or `false`
+    (e.g. `let expired = match get(k) { Some(v) => v.is_expired(), None => false }`)"""
+    key = id(b)
+    if key in _EXP_CACHE:
+        return _EXP_CACHE[key]
+    B = set()
+    for i, t in b.calls():
+        if callee(t).endswith("::is_expired") and t["t"] >= 0 and not t["d"]["p"]:
+            B.add(t["d"]["l"])
+    # bool locals assigned only from members of B or const false
+    import prov as _prov
+    defs = _prov.build_defs(b)
+    changed = True
+    while changed:
+        changed = False
+        for l, ds in defs.items():
+            if l in B or b.locals[l] != "bool":
+                continue
+            ok = bool(ds)
+            src_in_B = False
+            for kind, bbi, x in ds:
+                if kind != "stmt" or x["l"]["p"]:
+                    ok = False; break
+                r = x["r"]
+                if r["k"] == "use" and "c" in r["o"] and r["o"]["c"] == "false":
                     continue
-                sbb, st = sw
-                tru = st["o"]
-                reg |= cfg.edge_dom_set(b, sbb, tru)
-        cache[key] = reg
-    return bb in reg
+                if r["k"] == "use" and op_local(r["o"]) in B and not op_place(r["o"])["p"]:
+                    src_in_B = True; continue
+                ok = False; break
+            if ok and src_in_B:
+                B.add(l); changed = True
+    reg = set()
+    for i, bb in enumerate(b.bbs):
+        t = bb["t"]
+        if t["k"] != "switch":
+            continue
+        l = op_local(t["d"])
+        pl = op_place(t["d"])
+        if l is None or pl["p"]:
+            continue
+        neg = False
+        if l not in B:
+            # `!x` computed in this block
+            hit = None
+            for st in bb["s"]:
+                if st["k"] == "=" and st["l"]["l"] == l and st["r"]["k"] == "un" and st["r"]["op"] == "Not" and op_local(st["r"]["o"]) in B:
+                    hit = True
+            if not hit:
+                continue
+            neg = True
+        zero = dict(t["ts"]).get(0)
+        if zero is None:
+            continue
+        tru = zero if neg else t["o"]
+        reg |= cfg.edge_dom_set(b, i, tru)
+    _EXP_CACHE[key] = reg
+    return reg
+
+
+_EXP_CACHE = {}
+
+
+def is_purge_block(b, bb):
+    """is block bb control-dependent on `is_expired() == true` (the lazy purge branch)?"""
+    return bb in expired_region(b)
 
 
 BYTES_MUT = re.compile(
